@@ -10,6 +10,7 @@ import (
 	"os"
 	"path/filepath"
 	"strconv"
+	"strings"
 	"time"
 
 	"tcheck/core"
@@ -124,8 +125,27 @@ func run(p *Property, tier, only string) int {
 				}
 			}()
 			p.Run(rc)
+			// guard census over the property's anchor files (from the given properties.jsonl)
+			if files := anchorFiles(vd, p.ID); len(files) > 0 {
+				rules.GC(rc, func(f string) bool { return files[f] }, 1)
+			}
 		}()
 		rules.ReleaseProgram(prog)
+	}
+	if r := os.Getenv("TCHECK_ONLY_RULE"); r != "" {
+		// debugging aid: judge the tree by one rule only (floors disabled)
+		for _, sk := range res.Sinks {
+			var keep []*core.Obligation
+			for _, o := range sk.Obs {
+				if o.Rule == r {
+					keep = append(keep, o)
+				}
+			}
+			sk.Obs = keep
+			for _, ri := range sk.Rules {
+				ri.Floor = 0
+			}
+		}
 	}
 	if only != "" {
 		// replay: keep only the obligation named by the report
@@ -164,4 +184,33 @@ func run(p *Property, tier, only string) int {
 		}
 	}
 	return res.Finish(known)
+}
+
+// anchorFiles reads the hand-written anchor files of a property from properties.jsonl.
+func anchorFiles(verif, id string) map[string]bool {
+	out := map[string]bool{}
+	b, err := os.ReadFile(filepath.Join(verif, "properties.jsonl"))
+	if err != nil {
+		b, err = os.ReadFile("/verif/properties.jsonl")
+		if err != nil {
+			return out
+		}
+	}
+	for _, line := range strings.Split(string(b), "\n") {
+		var p struct {
+			ID      string `json:"id"`
+			Anchors struct {
+				Files []string `json:"files"`
+			} `json:"anchors"`
+		}
+		if json.Unmarshal([]byte(line), &p) != nil || p.ID != id {
+			continue
+		}
+		for _, f := range p.Anchors.Files {
+			if strings.HasSuffix(f, ".go") && !strings.Contains(f, "/") {
+				out[f] = true
+			}
+		}
+	}
+	return out
 }
